@@ -825,6 +825,19 @@ class Body:
             return ds[0][2].get("nvariants")
         return None
 
+    def variant_names_of_switch(self, bb):
+        """names of the variants, by discriminant index, of the enum the switch at the end of block bb tests (None if unknown)"""
+        t = self.blocks[bb]["term"]
+        if t["k"] != "switch":
+            return None
+        d = t["discr"]
+        if d.get("k") not in ("move", "copy") or "p" in d["pl"]:
+            return None
+        ds = self.defs(d["pl"]["l"])
+        if len(ds) == 1 and ds[0][1] == "rv" and ds[0][2].get("k") == "discr":
+            return ds[0][2].get("variant_names")
+        return None
+
 
 # ----------------------------------------------------------------------------- program
 
@@ -1127,6 +1140,9 @@ def _body_facts(self):
             else:
                 if c[0] == 'discr':
                     rel = ('discr', deep_strip(c[1]), truth)
+                    vn = self.variant_names_of_switch(bb)
+                    if vn and isinstance(truth, int) and 0 <= truth < len(vn):
+                        facts.append({"u": bb, "v": tgt, "rel": ('variant', deep_strip(c[1]), vn[truth])})
                     # `match a.cmp(&b) { Less | Equal | Greater }`: the variant of the Ordering IS the comparison
                     oc = deep_strip(c[1])
                     if oc[0] == 'call' and len(oc[2]) == 2 and canon(oc[1]).split("::")[-1] == "cmp" and re.search(r"\bOrd\b", str(oc[1])) and truth in _ORDERING:
